@@ -169,6 +169,13 @@ func runC11(res *Result, tier string, seed int64, replay string) {
 			})
 			docs = append(docs, doc{fmt.Sprintf("gen:%d", i), d.MJML()})
 		}
+		// every component with every one of its attributes set (one at a time; pairs at the thorough tier): classes, ids, fonts and
+		// component CSS must stay in step whatever markup path the attribute selects
+		for _, ld := range attrSweepDocs() {
+			if tier == "thorough" || !strings.Contains(ld.desc, "+") {
+				docs = append(docs, doc{ld.desc, ld.src})
+			}
+		}
 	}
 	mapped := map[string]string{}
 	for n, u := range fonts.GoogleFontsMapping {
